@@ -157,6 +157,37 @@ type stub struct {
 	pays    []payRec
 	puts    []putRec
 	w       *world // nil: free-running
+	pubMu   sync.Mutex
+	pub     map[*big.Int]*big.Int // every *big.Int that crossed the accounting/settlement boundary or sat in an unpaid field -> value when first seen
+	pubKind map[*big.Int]string
+}
+
+// publish remembers the object x (not a copy) together with its present value.
+func (s *stub) publish(x *big.Int, kind string) {
+	if x == nil {
+		return
+	}
+	s.pubMu.Lock()
+	if _, ok := s.pub[x]; !ok {
+		s.pub[x] = new(big.Int).Set(x)
+		s.pubKind[x] = kind
+	}
+	s.pubMu.Unlock()
+}
+
+// mutated lists the published objects whose value is no longer the one they were published with.
+// Only call while no accounting goroutine can be running.
+func (s *stub) mutated() []string {
+	s.pubMu.Lock()
+	defer s.pubMu.Unlock()
+	var out []string
+	for x, v := range s.pub {
+		if x.Cmp(v) != 0 {
+			out = append(out, fmt.Sprintf("%s: published as %v, now %v", s.pubKind[x], v, x))
+		}
+	}
+	sort.Strings(out)
+	return out
 }
 
 func (s *stub) gate(kind, peer int) *thread {
@@ -174,6 +205,7 @@ func (s *stub) gate(kind, peer int) *thread {
 
 func (s *stub) Pay(ctx context.Context, peer boson.Address, amt *big.Int) error {
 	p := peerIndex(peer)
+	s.publish(amt, "Pay amount (payment threshold)")
 	if s.w != nil {
 		s.w.settlerEv <- payRec{p, new(big.Int).Set(amt)}
 		<-s.w.settlerRel
@@ -195,7 +227,10 @@ func (s *stub) TransferTraffic(peer boson.Address) (*big.Int, error) {
 	if s.fails[3] {
 		return nil, errTransfer
 	}
-	v := new(big.Int).Set(s.transf[p])
+	// the ledger entry itself is handed out (a settlement service may do that); the stub never
+	// mutates an entry, it installs a new one
+	v := s.transf[p]
+	s.publish(v, "TransferTraffic result")
 	if t != nil {
 		t.lastTransf = new(big.Int).Set(v)
 	}
@@ -212,7 +247,8 @@ func (s *stub) RetrieveTraffic(peer boson.Address) (*big.Int, error) {
 	if s.created[p] == nil {
 		s.created[p] = new(big.Int).Set(s.retr[p])
 	}
-	return new(big.Int).Set(s.retr[p]), nil
+	s.publish(s.retr[p], "RetrieveTraffic result (settlement ledger entry)")
+	return s.retr[p], nil
 }
 
 func (s *stub) PutRetrieveTraffic(peer boson.Address, traffic *big.Int) error {
@@ -252,7 +288,8 @@ func (s *stub) AvailableBalance() (*big.Int, error) {
 	if s.fails[2] {
 		return nil, errAvail
 	}
-	return new(big.Int).Set(s.avail), nil
+	s.publish(s.avail, "AvailableBalance result")
+	return s.avail, nil
 }
 
 func (s *stub) SetNotifyPaymentFunc(f settlement.NotifyPaymentFunc)   {}
@@ -260,7 +297,7 @@ func (s *stub) GetPeerBalance(peer boson.Address) (*big.Int, error)   { return b
 func (s *stub) GetUnPaidBalance(peer boson.Address) (*big.Int, error) { return big.NewInt(0), nil }
 
 func newStub(jc *jcase) *stub {
-	s := &stub{avail: big.NewInt(jc.Avail)}
+	s := &stub{avail: big.NewInt(jc.Avail), pub: map[*big.Int]*big.Int{}, pubKind: map[*big.Int]string{}}
 	for i := range jc.Retr {
 		s.retr = append(s.retr, big.NewInt(jc.Retr[i]))
 		s.transf = append(s.transf, big.NewInt(jc.Transf[i]))
@@ -283,7 +320,9 @@ func execOp(acc *accounting.Accounting, st *stub, op jop) (res int) {
 	case "deb":
 		return classify(acc.Debit(peerAddr(op.P), op.T))
 	case "not":
-		return classify(acc.NotifyPayment(peerAddr(op.P), big.NewInt(op.Z)))
+		z := big.NewInt(op.Z)
+		st.publish(z, "NotifyPayment argument")
+		return classify(acc.NotifyPayment(peerAddr(op.P), z))
 	case "avail":
 		st.mu.Lock()
 		st.avail = big.NewInt(op.Z)
@@ -350,6 +389,9 @@ type world struct {
 	settlerAck chan struct{}
 	parked     *payRec // request the settle goroutine is parked with
 	schedCoq   []string
+	rowsCoq    []string             // per schedCoq entry: freshness row or None
+	seenPtr    map[*big.Int]bool    // field objects seen at earlier observations
+	immBad     bool
 	chosen     []int
 	ref        []*big.Int // reference unpaid balance per peer (nil: no accountingPeer yet)
 	expReq     []payRec   // requests the property demands, in order
@@ -383,6 +425,39 @@ func (w *world) record(who int, status int) {
 		ws = fmt.Sprintf("W %d%%N", who)
 	}
 	w.schedCoq = append(w.schedCoq, fmt.Sprintf("(%s, %d%%N)", ws, status))
+	w.rowsCoq = append(w.rowsCoq, "None")
+}
+
+// observe is called when nothing is running: pointer freshness of every observable unpaid field (attached to
+// the last recorded macro step) and immutability of everything published so far.
+func (w *world) observe() {
+	var row []string
+	for p := range w.ref {
+		if w.lockHeld(p) {
+			row = append(row, "None")
+			continue
+		}
+		x, ok := w.acc.VerifUnpaidPtr(peerAddr(p))
+		if !ok {
+			row = append(row, "None")
+			continue
+		}
+		w.st.publish(x, fmt.Sprintf("unPaidTraffic of peer %d", p))
+		if w.seenPtr[x] {
+			row = append(row, "(Some false)")
+		} else {
+			w.seenPtr[x] = true
+			row = append(row, "(Some true)")
+		}
+	}
+	if n := len(w.rowsCoq); n > 0 && w.rowsCoq[n-1] == "None" {
+		w.rowsCoq[n-1] = "(Some " + hx.CoqList(row, "option bool") + ")"
+	}
+	w.run.OracleChecked(1)
+	if bad := w.st.mutated(); len(bad) > 0 && !w.immBad {
+		w.immBad = true
+		w.violate("immutability:published-bigint-mutated", "a *big.Int that was handed across the accounting/settlement boundary or stored in an unpaid field changed its value afterwards: "+strings.Join(bad, "; "))
+	}
 }
 
 // await waits for the next event of t and turns it into a status code.
@@ -741,7 +816,7 @@ var raceMode = false
 func runHist(run *hx.Run, jc *jcase, r *hx.Rand) {
 	np := len(jc.Retr)
 	w := &world{run: run, jc: jc, st: newStub(jc), settlerEv: make(chan payRec), settlerRel: make(chan struct{}),
-		settlerAck: make(chan struct{}), ref: make([]*big.Int, np), thr: big.NewInt(jc.Thr), tol: big.NewInt(jc.Tol),
+		settlerAck: make(chan struct{}), seenPtr: map[*big.Int]bool{}, ref: make([]*big.Int, np), thr: big.NewInt(jc.Thr), tol: big.NewInt(jc.Tol),
 		short: 40 * time.Millisecond, long: 20 * time.Second}
 	if raceMode {
 		w.short = 200 * time.Millisecond
@@ -783,6 +858,7 @@ func runHist(run *hx.Run, jc *jcase, r *hx.Rand) {
 			w.goThread(w.threads[who])
 		}
 		w.checkQuiescent()
+		w.observe()
 		return true
 	}
 	if r == nil {
@@ -821,6 +897,7 @@ func runHist(run *hx.Run, jc *jcase, r *hx.Rand) {
 		w.goSettler()
 	}
 	w.checkQuiescent()
+	w.observe()
 	for _, t := range w.threads[1:] {
 		if t.state != tDone {
 			w.violate("hang:blocked-at-end", fmt.Sprintf("thread %d still blocked in %+v when everything else has finished", t.id, t.cur))
@@ -867,7 +944,7 @@ func runHist(run *hx.Run, jc *jcase, r *hx.Rand) {
 	fin := hx.CoqApp("Build_final", hx.CoqList(unp, "option Z"), hx.CoqList(locked, "bool"), bigsCoq(w.st.retr), bigsCoq(w.st.transf),
 		hx.CoqList(ps, "N * Z"), "None", hx.CoqNat(w.acc.VerifPayChanLen()), hx.CoqList(rs, "list N"))
 	coq := hx.CoqApp("CHist", hx.CoqZ(jc.Thr), hx.CoqZ(jc.Tol), hx.CoqNat(w.capacity), assocCoq(jc.Retr), assocCoq(jc.Transf), hx.CoqZ(jc.Avail),
-		progsCoq(jc.Progs), hx.CoqList(w.schedCoq, "who * N"), fin)
+		progsCoq(jc.Progs), hx.CoqList(w.schedCoq, "who * N"), fin, hx.CoqList(w.rowsCoq, "option (list (option bool))"))
 	nblk := 0
 	for _, s := range w.schedCoq {
 		if strings.HasSuffix(s, ", 1%N)") {
@@ -1060,6 +1137,15 @@ func runFree(run *hx.Run, jc *jcase, addCoq bool) {
 				run.Violate(hx.Violation{Sig: "reserve:granted-beyond-balance", Detail: fmt.Sprintf("Reserve(%d,%d) = %d", o.P, o.T, results[i][k]), Case: jc})
 			}
 		}
+	}
+	for p := 0; p < np; p++ {
+		if x, ok := acc.VerifUnpaidPtr(peerAddr(p)); ok {
+			st.publish(x, fmt.Sprintf("unPaidTraffic of peer %d", p))
+		}
+	}
+	run.OracleChecked(1)
+	if bad := st.mutated(); len(bad) > 0 {
+		run.Violate(hx.Violation{Sig: "immutability:published-bigint-mutated", Detail: "free-running: a *big.Int handed across the accounting/settlement boundary changed its value afterwards: " + strings.Join(bad, "; "), Case: jc})
 	}
 	var pc []uint64
 	for p := 0; p < np; p++ {
